@@ -59,6 +59,8 @@ func runC04(c *Ctx) {
 	// processes share a file only when they agree on its whole header (and so on every offset)
 	c09HeaderVerified(c, c.Root(), "C04.reserve-write-link")
 	c04OpenRejects(c, c.Root(), "C04.growth-vs-corruption")
+	// processes of different library revisions share a file: the layout constants are the documented ones
+	c10Constants(c, c.Root(), "C04.reserve-write-link")
 
 	m := c.Root()
 	c04AtomicOnly(c, m)
